@@ -28,6 +28,27 @@ claim("C04", "exploration",
       "CPython audit events are the observation of 'imports/executes'; value classes as listed in DESIGN.md §4 C04.",
       "DESIGN.md §4 C04")
 
+claim("C19", "exploration",
+      "differential property-based testing against an independently written reference codec/peer (byte-exact, strict "
+      "shortest-form decoding), literal constant table, frozen byte vectors",
+      "Generated values, packets and conversations are run through the real implementation and through a reference "
+      "implementation written from the published format with literal numbers; any byte-level or semantic disagreement in "
+      "either direction is a violation. Self-consistent renumberings that the repository's tests cannot see are caught "
+      "because the reference does not import rpyc.",
+      "The reference codec is the specification (vlib/refcodec.py), guarded by frozen vectors.",
+      "DESIGN.md §4 C19")
+claim("C12", "exploration",
+      "schedule fuzzing under a deterministic cooperative scheduler (line-level preemption in Connection._send): "
+      "Hypothesis-generated preemption lists + stateless DFS enumeration of 2-thread interleavings; invariant oracle over "
+      "the transmission log",
+      "Interleavings are explicit generated values executed on the real _send code with simulated locks; the oracle is an "
+      "invariant over the recorded transmission log (exactly-once, contiguous, per-thread order, empty queue, no "
+      "deadlock). The thorough tier enumerates every line-level interleaving of 2 threads x 1 message; everything else is "
+      "preemption-bounded sampling.",
+      "Preemption only at source-line boundaries of _send and at 3 points of the transport write; list.append/pop(0) "
+      "atomic; SimLock mirrors threading.Lock.",
+      "DESIGN.md §4 C12")
+
 NOT_YET = "check not built yet in this revision (see DESIGN.md §8 build order)"
 
 
